@@ -13,15 +13,19 @@ DEMO=$(python3 -c "import json;print(json.load(open('$OUT/meta$N.json'))['demo_c
 git apply $OUT/patch$N.diff || { echo "$ID-$N: patch does not apply in worktree"; exit 2; }
 BUILD=ok; go build ./... >/dev/null 2>&1 || BUILD=fail
 SUITE=pass; timeout 900 go test -vet=off -count=1 ./agent/banner/... ./agent/metrics/... ./agent/sessions/... ./agent/utils/... ./agent/websockets/... ./utils/... >/tmp/mut/$ID-suite$N.log 2>&1 || SUITE=fail
-WITH=pass; timeout 900 bash -c "$DEMO" >/tmp/mut/$ID-demo$N-with.log 2>&1 || WITH=fail
+WITH=pass; (cd $OUT && timeout 900 bash -c "$DEMO") >/tmp/mut/$ID-demo$N-with.log 2>&1 || WITH=fail
 git apply -R $OUT/patch$N.diff
-WITHOUT=pass; timeout 900 bash -c "$DEMO" >/tmp/mut/$ID-demo$N-without.log 2>&1 || WITHOUT=fail
+WITHOUT=pass; (cd $OUT && timeout 900 bash -c "$DEMO") >/tmp/mut/$ID-demo$N-without.log 2>&1 || WITHOUT=fail
 git checkout -q -- . ; git clean -fdq
-APPLIES=yes; git -C /repo apply --check $OUT/patch$N.diff 2>/dev/null || APPLIES=no
+APPLIES=yes; STORE=$OUT/patch$N.diff
+if ! git -C /repo apply --check $OUT/patch$N.diff 2>/dev/null; then
+  if [ -f $OUT/patch$N.rebased.diff ] && git -C /repo apply --check $OUT/patch$N.rebased.diff 2>/dev/null; then STORE=$OUT/patch$N.rebased.diff; APPLIES=rebased; else APPLIES=no; fi
+fi
+git -C $WT checkout -q -- . ; git -C $WT clean -fdq
 echo "$ID-$N: build=$BUILD suite=$SUITE demo_with_change=$WITH demo_without=$WITHOUT applies_to_repo_head=$APPLIES"
-if [ $BUILD = ok ] && [ $SUITE = pass ] && [ $WITH = fail ] && [ $WITHOUT = pass ] && [ $APPLIES = yes ]; then
+if [ $BUILD = ok ] && [ $SUITE = pass ] && [ $WITH = fail ] && [ $WITHOUT = pass ] && [ $APPLIES != no ]; then
   D=/verif/seeded/$ID-$N; mkdir -p $D
-  cp $OUT/patch$N.diff $D/patch.diff
+  cp $STORE $D/patch.diff; [ $APPLIES = rebased ] && cp $OUT/patch$N.diff $D/patch.original-base.diff
   for f in $OUT/demo$N*; do cp -r $f $D/; done
   python3 - <<PY
 import json
